@@ -31,7 +31,10 @@ CHECKS = {
                 '(proxy-made response queued in 1..n pieces with must-flush; upstream data then upstream close; tunnel): ConnTick '
                 'exhaustively checked for NoDropToClient / NoReadWhileFlushing and, under weak fairness, for delivery and closing; '
                 'generated schedules replayed on the real handler; syscall traces validated by TLC against the C07 clauses of '
-                'Conn.tla (close only after everything queued was accepted by send, promptness within 2 loop iterations).',
+                'Conn.tla (close only after everything queued was accepted by send, promptness within 2 loop iterations). Kernel-socket '
+                'part: REAL proxy processes in the three execution modes relay multi-MiB close-delimited / Content-Length responses, '
+                'a tunnel stream and a static file to clients reading fast, slowly or late while the origin closes right after its '
+                'last byte; TLC (TraceFlush) requires everything owed, unmodified, then a prompt end-of-stream.',
         'design_ref': 'DESIGN.md section 6, C07',
         'note': 'Trusted: TLC, SimNet socket semantics, reduction argument. Threaded mode and TLS clients are not exercised here.',
         'technique': 'TLA+ design model (ConnTick, safety + liveness) + TLC-generated schedules replayed into the real handler + '
